@@ -27,6 +27,11 @@ GEN_AST = '_Z7gen_astR8GenState'
 # and every library precondition of the container model that such a function violates
 UB_PAT = r'^((_Z\d|_ZN8GenState|_ZN16FunctionGenState|_ZN4Theo3gen)\S* |(_ZNSt|_ZNKSt|_ZSt)\S*\.assertion\.\d+ ministl: .*\((UB|throws)\))'
 SOLVER = ['--sat-solver', 'cadical', '--object-bits', '12', '--slice-formula']
+# recursion of the traversal: deepest on the trees of the harness is 3 (two parameters / arguments, a call as argument); a tighter bound than the loop
+# bound keeps the query small when a mutated generator follows a garbage pointer (then reported as bound exceeded next to the violation)
+# (CBMC rejects an --unwindset entry for a function that is not part of the program, so each family names the ones it reaches)
+R_ARGS, R_CALLARGS, R_VALUE = '_Z12dispatchArgsR8GenStatePN4Theo4NodeE', '_Z16dispatchCallArgsR8GenStatePN4Theo4NodeERSt6vectorIiE', '_Z13dispatchValueR8GenStatePN4Theo4NodeEi'
+RECURSION = {R_ARGS: 5, R_CALLARGS: 5, R_VALUE: 4, DISPATCH_VOID: 4}
 WHOLE = ['--no-array-field-sensitivity']     # strings as whole arrays (cheaper where names are symbolic); default: per-element (keeps constants)
 
 
@@ -53,9 +58,9 @@ def family(name):
     return deco
 
 
-def _job(entry, part_defs, stubs, extra, unwind, tags, ub, timeout, what, bounds, functions):
+def _job(entry, part_defs, stubs, extra, unwind, tags, ub, timeout, what, bounds, functions, rec=()):
     return fw.Job('gen.' + entry, H, entry, tus=TUS, defines=part_defs, caps=CAPS, unwind=unwind, tags=tags, ub_pat=ub, timeout=timeout, stubs=stubs,
-                  native=False, what=what, bounds=bounds + '; unwind %d' % unwind, functions=functions, extra=extra)
+                  native=False, what=what, bounds=bounds + '; unwind %d' % unwind, functions=functions, extra=extra, unwindset={k: RECURSION[k] for k in rec} if rec else None)
 
 
 @family('regs')
@@ -85,7 +90,7 @@ def call_jobs(tier, tags, ub, timeout, quick_subset):
                  'else no error and the tail PREPARE(stack_size, mi, tgt), ARG(k, temp_k) k = 0..n-1, EXEC(ind) follows the argument code contiguously; temporaries distinct and released; funcAddrs unchanged; EXEC entry < its index given Inv_fa' % a,
                  'callee in {f, g, h}; funcAddrs: 0..2 entries with names from {f, g}, Prog{ind in code emitted so far, any mi, argnum 0..2, any stack_size >= argnum}; argument names in {a, b, c}, literals one digit; '
                  'register file of <= 2 arbitrary registers (Inv_reg); 3 instructions emitted so far (2 arbitrary); any result register >= 0; __INC__/__DEC__ excluded (C20)',
-                 ['dispatchValue', 'dispatchCallArgs', 'FunctionGenState::fetchTemporary', 'FunctionGenState::releaseTemporary', 'FunctionGenState::fetchVariableRegister', 'GenState::emit', 'GenState::err'])
+                 ['dispatchValue', 'dispatchCallArgs', 'FunctionGenState::fetchTemporary', 'FunctionGenState::releaseTemporary', 'FunctionGenState::fetchVariableRegister', 'GenState::emit', 'GenState::err'], rec=(R_VALUE, R_CALLARGS))
             for e, a in ents]
 
 
@@ -102,7 +107,7 @@ def program_jobs(tier, tags, ub, timeout, quick_subset):
                  'afterwards funcAddrs[name] = {entry right after the JMP, index of the one pushed stack map, number of parameters, final register count}, other definitions unchanged; the routine is JMP, body, RET(register of OUT or x0); '
                  'RET register and all stack map keys < recorded frame size; JMP listed in backpatching_todo, its label set to the position after RET' % a,
                  'routine name in {f, g, h}; funcAddrs as for the call obligations; parameter and OUT names in {a, b, c} (equal names allowed); body = one temporary + one arbitrary instruction; 2 instructions, 1 label, 1 listed jump, 1 stack map before',
-                 ['dispatchProgram', 'dispatchArgs', 'GenState::pushSymbols', 'GenState::popSymbols', 'GenState::createLabel', 'GenState::setLabel', 'GenState::emitBackpatched', 'FunctionGenState::fetchVariableRegister'])
+                 ['dispatchProgram', 'dispatchArgs', 'GenState::pushSymbols', 'GenState::popSymbols', 'GenState::createLabel', 'GenState::setLabel', 'GenState::emitBackpatched', 'FunctionGenState::fetchVariableRegister'], rec=(R_ARGS,))
             for e, a in ents]
 
 
@@ -119,16 +124,16 @@ def labels_jobs(tier, tags, ub, timeout, quick_subset):
                  'two routines of statements %s compiled by the real dispatchGoto / dispatchIf / dispatchMark, closed by the real popSymbols: UNKNOWN_MARK once per label referenced and never set in THAT routine; every JMP/JMPC is in backpatching_todo; '
                  'if all labels are set, the real backpatch() gives every listed jump offset = recorded label position - own position, inside the routine (entry..RET)' % a,
                  'statement kinds fixed per entry, every label name symbolic in {l, m}; node structures as P of parse.cpp builds them',
-                 ['dispatchGoto', 'dispatchIf', 'dispatchMark', 'GenState::popSymbols', 'GenState::backpatch', 'GenState::createLabel', 'GenState::setLabel', 'GenState::emitBackpatched', 'GenState::getMarkPos'])
+                 ['dispatchGoto', 'dispatchIf', 'dispatchMark', 'GenState::popSymbols', 'GenState::backpatch', 'GenState::createLabel', 'GenState::setLabel', 'GenState::emitBackpatched', 'GenState::getMarkPos'], rec=(R_VALUE, R_CALLARGS))
             for e, a, kw in ents]
 
 
 VOID_ENTRIES = [
     ('harness_void_null', 'NULL subtree: dispatchVoid, dispatchValue, dispatchArgs, dispatchCallArgs return without effect'),
-    ('harness_void_split', 'SPLIT(l, r), l and r each present or NULL: both handed on in order, neither dereferenced'),
+    ('harness_void_split', 'SPLIT(l, r), r present or NULL: both handed on in order, once each'),
     ('harness_void_assign', 'ASSIGN(NAME, NAME | NUMBER): one instruction, registers in order of first use'),
-    ('harness_void_loop', 'LOOP(NAME, body or NULL): counter := bound, JMPC, body (handed on once), counter - 1, JMP; private counter register; labels set; jumps listed'),
-    ('harness_void_while', 'WHILE(NAME, body or NULL): condition, JMPC, body (handed on once), JMP; temporary released; labels set; jumps listed'),
+    ('harness_void_loop', 'LOOP(NAME, body): counter := bound, JMPC, body (handed on once), counter - 1, JMP; private counter register; labels set; jumps listed'),
+    ('harness_void_while', 'WHILE(NAME, body): condition, JMPC, body (handed on once), JMP; temporary released; labels set; jumps listed'),
     ('harness_void_jumps', 'STOP, label, GOTO, IF nodes routed by dispatchVoid: HALT / label set / JMP / TEST+JMPC, jumps listed'),
     ('harness_void_program', 'PROGRAM node without PORTS routed by dispatchVoid: JMP, body, RET; definition recorded'),
     ('harness_void_malformed', 'node kinds that cannot stand in statement / value position: MALFORMED_AST, children untouched'),
@@ -143,7 +148,7 @@ def void_jobs(tier, tags, ub, timeout, quick_subset):
     return [_job(e, d, _stubs({DISPATCH_VOID: 'stub_void'}), SOLVER, 10, tags, ub, timeout,
                  'layer B, real traversal function on one node with the traversal of its children replaced by an observing stub: ' + a,
                  'one node of the stated kind with the children the parser guarantees (tree invariant in harness/gen_rules.cpp part 6); names concrete; holds for trees of any size by induction over the height',
-                 ['dispatchVoid', 'dispatchValue', 'dispatchAssign', 'dispatchLoop', 'dispatchWhile', 'dispatchMark', 'dispatchGoto', 'dispatchIf', 'dispatchProgram', 'dispatchArgs', 'dispatchCallArgs', 'gen_ast'])
+                 ['dispatchVoid', 'dispatchValue', 'dispatchAssign', 'dispatchLoop', 'dispatchWhile', 'dispatchMark', 'dispatchGoto', 'dispatchIf', 'dispatchProgram', 'dispatchArgs', 'dispatchCallArgs', 'gen_ast'], rec=(R_ARGS, R_CALLARGS, R_VALUE, DISPATCH_VOID))
             for e, a in ents]
 
 
